@@ -56,4 +56,3 @@ props! {
     "X04" => x04,
     "X06" => x06,
 }
-pub mod x06_probe;
